@@ -114,8 +114,35 @@ package bindnode
 // Typed map: an entry is recorded (key appended, value stored) only for a key that is not present yet.
 //@ func (*_mapAssembler).AssembleValue$1() (err)
 //@   nosafety
-//@   before Append assert[C09] !reflect.rmaphas(w.valuesVal, kval)
+//@   before Append assert[C09,C12] !reflect.rmaphas(w.valuesVal, kval)
 //@   before SetMapIndex assert[C09] carg0 == w.valuesVal && carg1 == kval
+//   a repeated key is rejected without a trace: the value already stored under it is not replaced
+//   (probed: the map value the presence test was made on; the reflect setters in between are
+//   abstracted as arbitrary heap updates, so the field is not known to be unchanged)
+//@   after MapIndex let probed = carg0
+//@   after MapIndex let probedkey = carg1
+//@   before SetMapIndex assert[C09,C12] defined(probed) && !reflect.rmaphas(probed, probedkey)
+
+// Assigning a whole node goes through the generic copy, i.e. through the checked assembler methods
+// above, entry by entry (an unsigned integer node goes through the kind-gated assignUInt): there is
+// no path that installs a Go value without the checks. (A future same-type fast path would need a
+// contract of its own saying why the value conforms.)
+//@ func (*_assembler).AssignNode(node) (err)
+//@   nosafety
+//@   requires w != nil && node != nil
+//@   before Copy assert[C09] carg0 == node && carg1 == iface(w)
+//@   before assignUInt assert[C09] carg0 == w
+//@   after Copy let checked = true
+//@   after assignUInt let checked = true
+//@   ensures[C09] err == nil ==> defined(checked)
+//@ func (*_assemblerRepr).AssignNode(node) (err)
+//@   nosafety
+//@   requires w != nil && node != nil
+//@   before Copy assert[C09] carg0 == node && carg1 == iface(w)
+//@   before assignUInt assert[C09] carg0 == w
+//@   after Copy let checked = true
+//@   after assignUInt let checked = true
+//@   ensures[C09] err == nil ==> defined(checked)
 
 // Union (type level): an unknown member name yields an error assembler.
 //@ func (*_unionAssembler).AssembleValue() (va)
